@@ -134,7 +134,7 @@ ADDENDA = {
     'C01': ('linear-use / template-multiplicity analysis of user expressions (DUP-EVAL), source tracing of store-position placeholders (NEW-BINDING), user expressions moved into generated function scopes (SCOPE-MOVE), state-frame requirement on block visitors, order constraints for code parked in annotations (O6) and for stale analysis annotations (O7), abstract evaluation of the BoolOp / Compare folds on symbolic operands (FOLD), stale-child taint (STALE), presence-based annotation copy (ORIG-DEFS), traversal of the variable pass (LD-TRAV), standard-library name resolution (STDLIB), state-frame pairing (FRAME); imported necessary conditions of C03 C05 C06 C07 C08 C09 C11 C13 C14',
             ' A user expression reaches the generated code at most once on every handler path and a repeated placeholder only receives plain names; templates assign only to fresh symbols or to what the user statement binds; every block is visited inside a fresh frame of the pass state.'),
     'C02': ('user expressions moved into generated function scopes (SCOPE-MOVE); imported rules: activity traversal/order (C08), getter/setter, support-set, output-count and tuple-order rules (C03), closure liveness and value-type state (C07)', ''),
-    'C03': ('abstract evaluation of the BoolOp / Compare folds: every operand of and_ / or_ is a lambda (FOLD); alias analysis of module-level mutable objects (SHARED-MUT, with positive-control fixture); abstract evaluation of QN.support_set as a structural fold (QN-SUPPORT)',
+    'C03': ('imported setter-parameter hygiene rule (C11 HYG-SUPPORT); abstract evaluation of the BoolOp / Compare folds: every operand of and_ / or_ is a lambda (FOLD); alias analysis of module-level mutable objects (SHARED-MUT, with positive-control fixture); abstract evaluation of QN.support_set as a structural fold (QN-SUPPORT)',
             ' Directive tables and option nodes are per loop (no module-level mutable object is mutated through an alias); the support of a composite is the union of the supports of its parts.'),
     'C04': ('order constraint O6 for code parked in annotations; FOLD and STALE (see C01); exact predicates for the documented native-call exceptions; imported cache-key / option equality rules (C10, C20)', ''),
     'C05': ('an entry of the statement-edge tables for every statement that owns a node (CFG-MIRROR); reachability order of statement-list visits relative to the lexical-scope window (CFG-SCOPE); per-section builder state keyed by the section (CFG-KEYED); path analysis of jump recording and wiring in the builder (CFG-WIRE)',
